@@ -560,3 +560,37 @@ M('c01j-append-count-rewritten-keep', 'C01', 'keep', RQ,
   '        memcpy(connp->in_buf + connp->in_buf_size, data, len);', '        memcpy(connp->in_buf + connp->in_buf_size, data, newsize - connp->in_buf_size);')
 M('c01j-ipv6-copy-guard-weakened', 'C01', 'break', 'htp/htp_util.c',
   '        if (len < 2 || len - 2 >= INET6_ADDRSTRLEN) {', '        if (len < 2 || len - 2 > INET6_ADDRSTRLEN + 1) {', 'C01.j')
+
+# ---------------- C17.a cursor store / C17.d
+M('c17a-pop-stores-before-wrap', 'C17', 'break', 'htp/htp_list.c',
+  '    if (pos > l->max_size - 1) pos -= l->max_size;\n\n    r = l->elements[pos];\n    l->last = pos;', '    l->last = pos;\n    if (pos > l->max_size - 1) pos -= l->max_size;\n\n    r = l->elements[pos];', 'C17.a')
+M('c17a-pop-store-then-read-keep', 'C17', 'keep', 'htp/htp_list.c',
+  '    r = l->elements[pos];\n    l->last = pos;', '    l->last = pos;\n    r = l->elements[pos];')
+M('c17d-trailing-nul-loop-removed', 'C17', 'break', 'htp/bstr.c',
+  '    while((p1 < len1) && (data1[p1] == 0)) {\n        p1++;\n    }\n    if ((p1 == len1) && (p2 == len2)) {', '    if ((p1 == len1) && (p2 == len2)) {', 'C17.d')
+M('c17d-trailing-loop-as-for-keep', 'C17', 'keep', 'htp/bstr.c',
+  '    while((p1 < len1) && (data1[p1] == 0)) {\n        p1++;\n    }\n    if ((p1 == len1) && (p2 == len2)) {', '    for (; (p1 < len1) && (data1[p1] == 0); p1++) {\n    }\n    if ((p1 == len1) && (p2 == len2)) {')
+
+# ---------------- wave-6 rules
+M('c14f-decoder-guard-too-strict', 'C14', 'break', 'htp/htp_multipart.c',
+  "if ((*s == '\\\\')&&(pos + 1 < len)&&", "if ((*s == '\\\\')&&(pos + 2 < len)&&", 'C14.f')
+M('c14e-empty-text-part-skipped', 'C14', 'break', 'htp/htp_content_handlers.c',
+  '            if (part->type == MULTIPART_PART_TEXT) {', '            if (part->type == MULTIPART_PART_TEXT && part->value != NULL) {', 'C14.e')
+M('c15d-signed-char-view', 'C15', 'break', 'htp/htp_urlencoded.c',
+  '    unsigned char *data = (unsigned char *) _data;', '    const char *data = (const char *) _data;', 'C15.d',
+  edits=[('htp/htp_urlencoded.c', '    unsigned char *data = (unsigned char *) _data;', '    const char *data = (const char *) _data;'),
+         ('htp/htp_urlencoded.c', 'htp_urlenp_add_field_piece(urlenp, data, startpos, pos, c);', 'htp_urlenp_add_field_piece(urlenp, (const unsigned char *) data, startpos, pos, c);', 'all')])
+M('c12h-plus-arm-stalls', 'C12', 'break', UT,
+  '                c = 0x20;\n            }\n\n            rpos++;\n            data[wpos++] = c;', '                c = 0x20;\n                rpos++;\n            }\n\n            data[wpos++] = c;', 'C12.h')
+M('c12h-advance-before-emit-keep', 'C12', 'keep', UT,
+  '                c = 0x20;\n            }\n\n            rpos++;\n            data[wpos++] = c;', '                c = 0x20;\n            }\n\n            data[wpos++] = c;\n            rpos++;')
+M('c13c-trim-by-helper', 'C13', 'break', UT,
+  "    while (len > 0) {\n        if (data[len-1] != ' ') {\n            break;\n        }\n        len--;\n    }", '    bstr_util_mem_trim(&data, &len);', 'C13.c')
+M('c13c-raw-fragment-decoded', 'C13', 'break', UT,
+  'htp_tx_urldecode_uri_inplace(tx, normalized->fragment);', 'htp_tx_urldecode_uri_inplace(tx, incomplete->fragment);', 'C13.c')
+M('c17b-tail-check-once', 'C17', 'break', UT,
+  '    while (pos < len) {\n        if (!htp_is_lws(data[pos])) {\n            return -1002;\n        }\n\n        pos++;\n    }\n\n    return r;',
+  '    if ((pos < len) && (!htp_is_lws(data[pos]))) {\n        return -1002;\n    }\n\n    return r;', 'C17.b')
+M('c17b-tail-check-for-loop-keep', 'C17', 'keep', UT,
+  '    while (pos < len) {\n        if (!htp_is_lws(data[pos])) {\n            return -1002;\n        }\n\n        pos++;\n    }\n\n    return r;',
+  '    for (; pos < len; pos++) {\n        if (!htp_is_lws(data[pos])) return -1002;\n    }\n\n    return r;')
